@@ -53,6 +53,9 @@ FieldChecks(ev) ==
     [] o = "fp.reduce" -> << <<"pre.range", Lt(Norm(ev.n), Add(PF(f), PF(f)))>>, <<"value", Norm(ev.out.r) = ModN(Norm(ev.n), PF(f))>> >>
     [] OTHER -> << <<"unknown-op", FALSE>> >>
 
+\* FpBase::add / subtract as the portable code defines them on arbitrary 384-bit operands
+GenAdd(a, b, p) == LET s == Add(a, b)  t == ModN(s, W384) IN IF ~Lt(s, W384) \/ ~Lt(t, p) THEN ModN(Sub(Add(t, W384), p), W384) ELSE t
+GenSub(a, b, p) == LET t == ModN(Sub(Add(a, W384), b), W384) IN IF Lt(a, b) THEN ModN(Add(t, p), W384) ELSE t
 RawChecks(ev) ==
   LET a == IF Has(ev, "a") THEN Norm(ev.a) ELSE Zero
       b == IF Has(ev, "b") THEN Norm(ev.b) ELSE Zero
@@ -63,9 +66,11 @@ RawChecks(ev) ==
   CASE o = "raw.add" -> << <<"value", r = ModN(Add(a, b), W384)>>, <<"carry", ev.out.c = (IF Lt(Add(a, b), W384) THEN 0 ELSE 1)>> >>
     [] o = "raw.sub" -> << <<"value", r = ModN(Sub(Add(a, W384), b), W384)>>, <<"borrow", ev.out.c = (IF Lt(a, b) THEN 1 ELSE 0)>> >>
     [] o = "raw.shl1" -> << <<"value", r = ModN(Add(a, a), W384)>>, <<"carry", ev.out.c = Bit(a, 383)>> >>
-    [] o = "raw.fpadd" -> << <<"pre.range", Lt(a, p) /\ Lt(b, p)>>, <<"value", r = AddMod(a, b, p)>> >>
-    [] o = "raw.fpsub" -> << <<"pre.range", Lt(a, p) /\ Lt(b, p)>>, <<"value", r = SubMod(a, b, p)>> >>
-    [] o = "raw.fpdbl" -> << <<"pre.range", Lt(a, p)>>, <<"value", r = AddMod(a, a, p)>> >>
+    \* C03 quantifies over ALL 384-bit operands: for unreduced operands the meaning is the generic word-serial algorithm's (WordArith: one
+    \* conditional correction by p, decided by the carry / borrow and the comparison with p); for reduced operands that is a + b mod p etc.
+    [] o = "raw.fpadd" -> << <<"value", r = GenAdd(a, b, p)>>, <<"reduced-case", ~(Lt(a, p) /\ Lt(b, p)) \/ r = AddMod(a, b, p)>> >>
+    [] o = "raw.fpsub" -> << <<"value", r = GenSub(a, b, p)>>, <<"reduced-case", ~(Lt(a, p) /\ Lt(b, p)) \/ r = SubMod(a, b, p)>> >>
+    [] o = "raw.fpdbl" -> << <<"value", r = GenAdd(a, a, p)>>, <<"reduced-case", ~Lt(a, p) \/ r = AddMod(a, a, p)>> >>
     [] o = "raw.mul" -> << <<"value", Norm(ev.out.w) = Mul(a, b)>>, <<"width", Len(ev.out.w) = 96>> >>
     [] o = "raw.sqr" -> << <<"value", Norm(ev.out.w) = Mul(a, a)>>, <<"width", Len(ev.out.w) = 96>> >>
     [] o = "raw.redc" -> << <<"pre.range", Lt(Norm(ev.w), Mul(p, W384))>>,
